@@ -31,7 +31,7 @@ add("a1_nvs_step", "msgpack",
 add("a1_nvs_step_24", "msgpack", desc="A1 with a 24-byte window (fixext16 complete)",
     bounds="input any prefix of 24 symbolic bytes; depth_limit any usize", functions=A_FUN,
     covers=["A1 leaf with payload", "A1 map with children"], tier="thorough",
-    props=["C04", "C18"], timeout=1800, mem_gb=12, assumptions=A_ASM, replay="msgpack")
+    props=["C04", "C18"], timeout=1800, mem_gb=12, assumptions=A_ASM, replay="msgpack", best_effort=True)
 add("a2_seq_step", "msgpack",
     desc="total_seq_size: element k sized on exactly the bytes after elements 0..k with depth_limit-1; total = sum; Truncated iff slice exhausted early; loop bounded by slice length, not by the declared count",
     bounds="input <= 8 B; count any u32; depth_limit any usize >= 1; element sizes any 1..=rest",
@@ -39,7 +39,7 @@ add("a2_seq_step", "msgpack",
     props=["C04", "C18", "C02", "C03"], timeout=600, mem_gb=8, assumptions=A_ASM, replay="msgpack")
 add("a2_seq_step_16", "msgpack", desc="A2 with input <= 16 B", bounds="input <= 16 B; count any u32", functions=A_FUN,
     covers=["A2 three elements fill the slice"], tier="thorough", props=["C04", "C18"], timeout=1800, mem_gb=12,
-    assumptions=A_ASM, replay="msgpack")
+    assumptions=A_ASM, replay="msgpack", best_effort=True)
 add("a3_map_step", "msgpack",
     desc="total_map_size against the contract of next_value_size only (however the implementation walks the entries): 2 * pairs values are sized, each on exactly the bytes after the earlier ones and one level deeper than the map; size = sum; an entry's error is propagated; Truncated exactly when the bytes run out early; a huge declared count does not loop",
     bounds="input <= 8 B; pairs any u32; depth any usize >= 1", functions=A_FUN,
@@ -183,7 +183,7 @@ add("c1_capture_programs", "input",
     desc="GuardedCaptureReader<Src>: 2 rounds of rewind + 2 partial reads, then rewind_and_take + into_inner; invariant after every operation; every borrow re-reads from byte 0",
     bounds="data <= 3 B, every read schedule, caller buffers 1..2", functions=C_FUN[:7],
     covers=["C1 whole source captured by reads", "C1 ownership taken mid-stream"], tier="thorough",
-    props=["C09", "C02", "C04"], timeout=1800, mem_gb=16, assumptions=C_SRC[:1])
+    props=["C09", "C02", "C04"], timeout=1800, mem_gb=16, assumptions=C_SRC[:1], best_effort=True)
 add("c3f_fused_reader", "input",
     desc="FusedReader<Src>: passes the inner bytes through, drops the inner reader at the first Ok(0) on a non-empty buffer, Ok(0) forever after, zero-length reads do not drop",
     bounds="data <= 3 B, 4 reads with buffers 0..2", functions=C_FUN[7:8], covers=["C3f inner reader dropped at EOF"],
@@ -236,7 +236,7 @@ add("d2c_de_fault_nest2", "transcode::stream",
     timeout=2400, mem_gb=30, assumptions=D_ASM, replay="stream")
 add("d3_totality", "transcode::stream",
     desc="as D2 with all default checks on (take_parent/unwrap panics, memory safety, overflow)", bounds="<= 4 events, nesting 1, faults anywhere",
-    functions=D_FUN, covers=["D serializer fault inside a collection"], props=["C04", "C12"], timeout=2400, mem_gb=16, assumptions=D_ASM, replay="stream", tier="thorough")
+    functions=D_FUN, covers=["D serializer fault inside a collection"], props=["C04", "C12"], timeout=2400, mem_gb=16, assumptions=D_ASM, replay="stream", tier="thorough", best_effort=True)
 add("d3_totality_small", "transcode::stream",
     desc="as D2 with panic, unwrap/expect, overflow and unwinding checks on (pointer checks off - the transcoder has no unsafe code; the full-check variant d3_totality is in the thorough tier): no panic of the transcoder for any event sequence and any single fault",
     bounds="<= 3 events, nesting 1, faults anywhere", functions=D_FUN, covers=["D deserializer fault inside a collection"],
